@@ -80,9 +80,13 @@ func (c *Case) Known(v Verdict) bool {
 	return false
 }
 
+// KnownMatcher is installed once by the worker (from the committed
+// known-findings file); every case, also in shrinking and replay, uses it.
+var KnownMatcher func(v Verdict) string
+
 func NewCase(prop, tier string, t *simrt.Tape) *Case {
 	incEpoch = 0
-	return &Case{Prop: prop, Tier: tier, Tape: t, Features: map[string]bool{}, Faults: map[string]int{}, Probes: map[string]int{}, Hash: 14695981039346656037}
+	return &Case{KnownID: KnownMatcher, Prop: prop, Tier: tier, Tape: t, Features: map[string]bool{}, Faults: map[string]int{}, Probes: map[string]int{}, Hash: 14695981039346656037}
 }
 
 // Absorb accounts one finished incarnation.
